@@ -94,9 +94,8 @@ def numeric_start(tok):
 
 
 def readings(tok):
-    '''(to_float(tok), int(float(tok)), round(to_float(tok)),
-    int(to_float(tok))) with the repository's to_float; None where the call
-    raises.'''
+    '''(to_float(tok), int(float(tok)), int(to_float(tok))) with the
+    repository's to_float; None where the call raises.'''
     from MIP.mip.datacard import to_float
 
     def attempt(fun):
@@ -105,7 +104,6 @@ def readings(tok):
         except (ValueError, OverflowError):
             return None
     out = (attempt(lambda: to_float(tok)), attempt(lambda: int(float(tok))),
-           attempt(lambda: round(to_float(tok))),
            attempt(lambda: int(to_float(tok))))
     return None if all(v is None for v in out) else out
 
@@ -211,6 +209,8 @@ class ImplDeck:
                     k += 1
         for (mat, _, _) in self.parsed.values():
             toks.update(mat.split())
+        # the multiplier of an xM entry of a FILL array is read on its own
+        toks.update({t[:-1] for t in toks if len(t) > 1 and t.endswith('m')})
         self.num = {}
         self.nf = {}
         for tok in sorted(toks):
@@ -274,7 +274,7 @@ def coq_cell(cell):
         fill = 'None'
     elif isinstance(fid, LatticeSpec):
         fill = (f'(Some (FillLat {coq_bounds(list(fid.bounds))} '
-                f'{clist(cz(u) for u in fid.spec)}))')
+                f'{clist(copt(u, cz) for u in fid.spec)}))')
     else:
         fill = f'(Some (FillU {cz(fid)}))'
     if not cell.trcl:
@@ -291,7 +291,7 @@ def coq_cell(cell):
 
 def coq_case(obs):
     num = clist(cpair(cstr(t), cpair(copt(r[0], cfloat), copt(r[1], cz),
-                                     copt(r[2], cz), copt(r[3], cz)))
+                                     copt(r[2], cz)))
                 for t, r in obs.num.items())
     trs = clist(cpair(cz(k), coq_fl(v)) for k, v in obs.transforms.items())
     norm = clist(cpair(coq_fl(k), (f'Ok {coq_fl(v[1])}' if v[0] == 'ok'
@@ -479,6 +479,13 @@ EDGE_BUT = [
     'trcl=(1 0 0 1 0 0 0 1 0 0 0 1)', '*trcl=(1 0 0 0 90 90 90 0 90 90 90 0)',
     '*trcl=(1 2 3 0 90 90 90 0 90 90 90 0 1)', 'trcl=(1 2 3) trcl=(4 5 6)',
     'lat=1 fill=2', 'fill=2 lat=1', 'fill=1 (1 0 0) lat=2',
+    'lat=1 fill=0:3 1 2i 4', 'lat=1 fill=0:2 0:1 0:0 1 i 3 2m 2.5m j',
+    'lat=1 fill=-1:1 2 2j', 'lat=1 fill=0:3 1 2I 4.0+0', 'lat=1 fill=0:1 i 3',
+    'lat=1 fill=0:2 1 i', 'lat=1 fill=0:2 1 xi 3', 'lat=1 fill=0:2 1 -1i 3',
+    'lat=1 fill=0:2 1 i x', 'lat=1 fill=0:2 j i 3', 'lat=1 fill=0:1 1 m',
+    'lat=1 fill=0:1 1 xm', 'lat=1 fill=0:1 2m', 'lat=1 fill=0:1 j 2m',
+    'lat=1 fill=0:1 xj', 'lat=1 fill=0:3 1 2log 8', 'lat=1 fill=0:1 1 2.5',
+    'lat=1 fill=0:1 1 3.5', 'lat=1 fill=0:4 1 2i 2 r', 'lat=1 fill=0:1 1 dog',
     'trcl=(1 x 3)', '*trcl=(1 2 3 x)', 'trcl', '*trcl', '*TRCL u=3', '*fill=2',
     '*FILL=1 imp:n=1', '*fill=2 trcl=(1 2 3)', 'imp:n=1.0+0', 'imp:n=2.5d-1',
     'trcl=(1.0+0 2 3)', 'trcl=1.0+0', 'fill=2 (1.5d0 0 0)', 'fill=2 (3.0+0)',
